@@ -321,6 +321,49 @@ class Blocking(io.RawIOBase):
         return d
 
 
+def text_layers_directly_on_the_stream(W, rec):
+    """A text layer (TextIOWrapper) or a buffered reader put directly on the limited stream, over the kind of input
+    real servers provide (BytesIO / BufferedReader, which also offer read1, peek, readinto1 ...): whatever the layer
+    probes or calls, nothing beyond the limit leaves the underlying input."""
+    LS = W["LimitedStream"]
+    body = b"ab\ncd\nefg\nhi"
+    tail = b"GET /next HTTP/1.1\r\n\r\n"
+    for mk_under in ("bytesio", "buffered"):
+        for L in (0, 1, 3, 6, len(body)):
+            for use in ("read_n", "readline", "iterate", "readlines", "buffered_peek", "buffered_read1"):
+                raw = io.BytesIO(body + tail)
+                under = raw if mk_under == "bytesio" else io.BufferedReader(raw, buffer_size=4)
+                ls = LS(under, L)
+                case = {"part": "text-direct", "underlying": mk_under, "limit": L, "use": use}
+                rec.case()
+                rec.nontrivial(("text-direct", mk_under, L, use))
+                rec.observe("layers_directly_on_the_stream")
+                got = b""
+                try:
+                    if use.startswith("buffered"):
+                        b = io.BufferedReader(ls, buffer_size=8)
+                        got = (b.peek(3)[:0] + b.read1(5) + b.read()) if use == "buffered_peek" else (b.read1(2) + b.read1(100) + b.read())
+                    else:
+                        t = io.TextIOWrapper(ls, encoding="latin-1", newline="")
+                        if use == "read_n":
+                            got = (t.read(2) + t.read(3) + t.read()).encode("latin-1")
+                        elif use == "readline":
+                            got = (t.readline() + t.readline() + t.read()).encode("latin-1")
+                        elif use == "iterate":
+                            got = "".join(line for line in t).encode("latin-1")
+                        else:
+                            got = "".join(t.readlines()).encode("latin-1")
+                except Exception as e:  # noqa: BLE001
+                    got = ("EXC:" + type(e).__name__).encode()
+                consumed = raw.tell() if mk_under == "bytesio" else None
+                if got != body[:L]:
+                    rec.violation("C09/layered-read-differs" if not got.startswith(body[:L]) or len(got) <= L else "C09/over-read-underlying", f"a {use} layer directly on LimitedStream(limit {L}) over {mk_under} returned {got!r}, the request body is {body[:L]!r}", case, monitor="byte-accounting")
+                    break
+                if consumed is not None and consumed > L:
+                    rec.violation("C09/over-read-underlying", f"a {use} layer directly on LimitedStream(limit {L}) consumed {consumed} bytes of the server's input", case, monitor="byte-accounting")
+                    break
+
+
 def run_input_stream(W, rec):
     from werkzeug.exceptions import ClientDisconnected, RequestEntityTooLarge
 
@@ -516,6 +559,7 @@ def run(shard, rec, rng):
     cfg = TIERS[shard["_tier"]]
     if shard["kind"] == "input_stream":
         run_input_stream(W, rec)
+        text_layers_directly_on_the_stream(W, rec)
         nested_streams(W, rec)
         reach.finish()
         contracts.report(rec)
